@@ -9,6 +9,15 @@ import os
 import sys
 
 _LOG = os.environ.get("RPV_AUDIT_LOG")
+_REACH_LOG = os.environ.get("RPV_REACH_LOG")  # read once, here: a lookup inside the audit hook would be attributed to the package
+
+if _REACH_LOG and os.environ.get("RPV_PACKAGE_ROOT"):
+    try:
+        import reach as _reach  # this directory is first on sys.path when the hook is injected
+
+        _reach.start(os.environ["RPV_PACKAGE_ROOT"], _REACH_LOG)
+    except Exception:  # pylint: disable=broad-except
+        pass
 
 if _LOG:
     import json
@@ -47,7 +56,7 @@ if _LOG:
                     writing = True
                 elif mode is None and isinstance(flags, int) and flags & _WRITE_FLAGS:
                     writing = True
-                if writing and path != _LOG:
+                if writing and path != _LOG and path != _REACH_LOG:
                     _emit({"e": "open-write", "path": os.path.abspath(path) if isinstance(path, (str, bytes)) else path, "mode": mode, "flags": flags})
             elif event == "import":
                 module = args[0]
@@ -112,7 +121,7 @@ if _LOG:
 
         def _env_getitem(self, key):
             try:
-                if self is os.environ and key not in _env_seen:
+                if self is os.environ and key not in _env_seen and not str(key).startswith("RPV_"):
                     frame = sys._getframe(1)
                     depth = 0
                     while frame is not None and depth < 6:
